@@ -486,6 +486,49 @@ pub fn rand_kinds_kernels(rng: &mut Rng) -> KindMask {
     }
 }
 
+/// The same map under a random renumbering of its darts (the null dart stays 0). Cell identifiers
+/// are smallest darts, so every value stored under an identifier moves to the smallest dart of
+/// the renumbered cell; which darts are "smaller" (spare darts vs mesh darts, one side of an edge
+/// vs the other, first half of a spare list vs second half) is what many kernel mistakes depend
+/// on. Returns the state unchanged when some value does not sit under a cell identifier.
+pub fn relabel_random(rng: &mut Rng, s: &State) -> State {
+    let n = s.n();
+    if n < 3 {
+        return s.clone();
+    }
+    let mut perm: Vec<u32> = (0..n as u32).collect();
+    rng.shuffle(&mut perm[1..]);
+    let mut t = State::new(s.dim, n, s.kinds);
+    for d in 0..n {
+        for i in 0..=s.dim as usize {
+            t.beta[perm[d] as usize][i] = perm[s.beta[d][i] as usize];
+        }
+        t.unused[perm[d] as usize] = s.unused[d];
+    }
+    let old_parts: Vec<Vec<u32>> = (0..=s.dim).map(|o| s.partition(o)).collect();
+    let new_parts: Vec<Vec<u32>> = (0..=t.dim).map(|o| t.partition(o)).collect();
+    for d in 1..n {
+        if let Some(v) = s.vtx[d] {
+            if old_parts[0][d] != d as u32 {
+                return s.clone();
+            }
+            t.vtx[new_parts[0][perm[d] as usize] as usize] = Some(v);
+        }
+    }
+    for k in mask_kinds(s.kinds) {
+        let o = kind_orbit(k) as usize;
+        for d in 1..n {
+            if let Some(v) = s.attrs[k][d] {
+                if old_parts[o][d] != d as u32 {
+                    return s.clone();
+                }
+                t.attrs[k][new_parts[o][perm[d] as usize] as usize] = Some(v);
+            }
+        }
+    }
+    t
+}
+
 /// A mesh state suited to the kernels: (split) grid with perturbed vertices, spare free darts,
 /// user attribute values on every cell, consistent anchors when registered.
 pub fn kernel_state(rng: &mut Rng, kinds: KindMask, triangles: bool, max_n: usize) -> State {
@@ -507,6 +550,9 @@ pub fn kernel_state(rng: &mut Rng, kinds: KindMask, triangles: bool, max_n: usiz
         }
     }
     fill_anchors(rng, &mut s);
+    if rng.chance(0.5) {
+        s = relabel_random(rng, &s);
+    }
     if rng.chance(0.1) {
         // an undefined vertex somewhere
         let d = 1 + rng.below(s.n() - 1);
@@ -590,8 +636,10 @@ pub fn kernel_op_with_pool(rng: &mut Rng, s: &State, which: Option<usize>, pool:
             let nd = take(rng, cnt);
             let mut ts: Vec<f64> = (0..k).map(|_| 0.05 + 0.9 * rng.unit()).collect();
             ts.sort_by(|a, b| a.partial_cmp(b).unwrap());
-            if rng.chance(0.05) {
-                ts[0] = -0.5;
+            // a position outside ]0,1[ (or on its border), at any index of the list
+            if rng.chance(0.08) {
+                let j = rng.below(ts.len());
+                ts[j] = [-0.5, 0.0, 1.0, 1.5, -0.001, 1.001][rng.below(6)];
             }
             Op::InsertVertices { e: pe[e_any as usize], nd, ts: ts.iter().map(|t| t.to_bits()).collect() }
         }
